@@ -469,6 +469,9 @@ def run_stream(prop_id, cfg, scfg, seed, tier, log, stats):
         op_cases = split_cases(ops)
         for ci, li, dkeys in failures:
             sig = ",".join(dkeys)
+            # a disagreement on a line the spec oracle also flags is a different failure from one on a clean line
+            if 0 <= li < len(model) and "~specviol=" in model[li]:
+                sig += "@" + model[li].split("~specviol=")[1].split()[0]
             if sig in seen_sig or len(seen_sig) >= 4:
                 continue
             seen_sig.add(sig)
@@ -489,7 +492,7 @@ def run_stream(prop_id, cfg, scfg, seed, tier, log, stats):
                 bad, simpl, smodel, sres = rerun_case(stream, hdr, shrunk, keys, tag)
             violations.append({
                 "kind": "failing-input", "stream": stream, "source": label, "case": hdr,
-                "differing_keys": dkeys, "n_failing_lines": sum(1 for f in failures if ",".join(f[2]) == sig),
+                "differing_keys": dkeys, "n_failing_lines": sum(1 for f in failures if ",".join(f[2]) == sig.split("@")[0]),
                 "ops": shrunk, "resolved": sres, "impl_out": simpl, "model_out": smodel,
                 "reproduced_after_shrink": bad,
                 "original_ops": body if len(body) <= 400 else body[:400],
@@ -603,6 +606,16 @@ def check(prop_id, tier, seed):
                 broken.append("the harness does not build with -race")
         for scfg in cfg["streams"]:
             violations += run_stream(prop_id, cfg, scfg, seed, tier, log, stats)
+        USE_RACE["on"] = False
+    if broken and cfg.get("search_on_broken") and h_ok and os.path.exists(DRIVER_BIN) \
+            and not any(v["kind"] == "failing-input" for v in violations):
+        # an obligation broke and the ordinary run found no failing input: search harder (thorough volume, and the
+        # race detector where the property is about concurrency) before reporting no-failing-input-found
+        if cfg.get("race"):
+            with Lock("build"):
+                USE_RACE["on"] = build_race_harness(log)
+        for scfg in cfg["streams"]:
+            violations += run_stream(prop_id, cfg, scfg, seed + 7919, "thorough", log, stats)
         USE_RACE["on"] = False
     failing = [v for v in violations if v["kind"] == "failing-input"]
     other = [v for v in violations if v["kind"] != "failing-input"]
